@@ -385,6 +385,80 @@ def r3_release_complete_and_owned(ctx, mod, sym):
     ctx.check(ok, 'R3', '_start_patches:tracks-all', mod, stp,
               "_start_patches does not record the group (on top of the older ones) and start each patch once",
               "a started patch is not tracked and therefore never stopped")
+    # acquisition is all-or-nothing: a patch that cannot start (patch('time.sleep') when the instructor blocked
+    # `time`, patch('sys.stdout') when `sys` is blocked) must not leave the earlier ones active or tracked
+    from ..fdeval import Raised as _Raised0
+    for failing in (0, 1, 2):
+        rec = symexec.Recorder()
+        ps = [patch_obj('p%d' % i, rec) for i in range(3)]
+
+        def _boom(*a, **k):
+            rec.events.append(('p%d.start-fails' % failing, a, k))
+            raise _Raised0('SandboxPreventModule', 'You cannot import `time` from student code.')
+        symexec.method(ps[failing], 'start', _boom)
+        older = (patch_obj('older', rec),)
+        me = sandbox_self(ctx, sym, mod, patches=[older])
+        fd = symexec.new_fd(sym, mod, calls=thread_calls)
+        _, raised = symexec.run(fd, stp, ps, bound_self=me, what='Sandbox._start_patches')
+        names = [e[0] for e in rec.events]
+        leaked = [n_[:-6] for n_ in names if n_.endswith('.start') and n_[:-6] + '.stop' not in names]
+        st_ = stack(me, 'patches')
+        ok = not leaked and len(st_) == 1 and st_[0] is older and 'older.stop' not in names
+        ctx.check(ok, 'R3', '_start_patches:all-or-nothing[fails=%d]' % failing, mod, stp,
+                  "when the start of patch #%d raises, _start_patches leaves %s started and %d group(s) on the stack "
+                  "(events %s); the patches already started must be stopped and the group must not stay tracked" % (
+                      failing, leaked or 'nothing', len(st_), names),
+                  "Sandbox().block_module('time'); run(...) raises SandboxPreventModule from patch('time.sleep') with "
+                  "sys.modules and sys.stdout still patched and both stacks non-empty")
+    rec = symexec.Recorder()
+    older_buf = Obj('older-buffer')
+    me = sandbox_self(ctx, sym, mod, stdout=[older_buf])
+    me.attrs.update(_module_overrides={'__builtins__': {}}, data={}, modules={})
+    for name in ('mock_function', '_track_inputs', '_reset_builtins', '_mock_builtins'):
+        symexec.method(me, name, lambda *a, **k: None)
+
+    def _sp_fails(*a, **k):
+        raise _Raised0('SandboxPreventModule', 'You cannot import `time` from student code.')
+    symexec.method(me, '_start_patches', _sp_fails)
+    fd = symexec.new_fd(sym, mod, calls={'io.StringIO': lambda *a, **k: Obj('buffer'),
+                                         'StringIO': lambda *a, **k: Obj('buffer'),
+                                         'PrintingStringIO': lambda *a, **k: Obj('buffer'),
+                                         'patch': lambda *a, **k: Obj('patch'),
+                                         'patch.dict': lambda *a, **k: Obj('patch.dict')},
+                         extra={'sys.modules': {}})
+    symexec.run(fd, stm, [Obj('context', inputs=[])], bound_self=me, what='Sandbox._start_mocking')
+    # ... and on success exactly one frame is pushed: the buffer that was patched in as sys.stdout
+    me_ok = sandbox_self(ctx, sym, mod, stdout=[older_buf])
+    me_ok.attrs.update(_module_overrides={'__builtins__': {}}, data={}, modules={})
+    for name in ('mock_function', '_track_inputs', '_reset_builtins', '_mock_builtins'):
+        symexec.method(me_ok, name, lambda *a, **k: None)
+    rec_ok = symexec.Recorder()
+    symexec.method(me_ok, '_start_patches', rec_ok.stub('_start_patches'))
+    patched = []
+
+    def _patch(target=None, new=None, *a, **k):
+        if target == 'sys.stdout':
+            patched.append(new)
+        return Obj('patch')
+    fd_ok = symexec.new_fd(sym, mod, calls={'io.StringIO': lambda *a, **k: Obj('buffer'),
+                                            'StringIO': lambda *a, **k: Obj('buffer'),
+                                            'PrintingStringIO': lambda *a, **k: Obj('buffer'),
+                                            'patch': _patch, 'patch.dict': lambda *a, **k: Obj('patch.dict')},
+                           extra={'sys.modules': {}})
+    _, raised_ok = symexec.run(fd_ok, stm, [Obj('context', inputs=[])], bound_self=me_ok,
+                               what='Sandbox._start_mocking')
+    st_ok = stack(me_ok, 'stdout')
+    ctx.check(raised_ok is None and len(st_ok) == 2 and st_ok[0] is older_buf and len(patched) == 1
+              and st_ok[1] is patched[0] and len(rec_ok.named('_start_patches')) == 1,
+              'R3', '_start_mocking:pushes-the-patched-buffer', mod, stm,
+              "_start_mocking does not push exactly one frame - the buffer it patches in as sys.stdout - on top of "
+              "the older ones and start one patch group (stack %r, %d sys.stdout patch(es))" % (st_ok, len(patched)),
+              "the output of the execution is read from a buffer the student never wrote to, or the stack is "
+              "unbalanced after the execution")
+    ctx.check(stack(me, 'stdout') == [older_buf], 'R3', '_start_mocking:all-or-nothing', mod, stm,
+              "when _start_patches raises, _start_mocking leaves the capture buffer it pushed on the stdout stack "
+              "(%d frame(s) instead of 1)" % len(stack(me, 'stdout')),
+              "Sandbox().block_module('time'); run(...) raises and the sandbox's stdout stack stays non-empty")
     # _stop_mocking: exactly one _stop_patches and one buffer popped, on every path
     rec = symexec.Recorder()
     older_buf, buf = Obj('older-buffer'), Obj('buffer')
@@ -422,9 +496,13 @@ def r3_release_complete_and_owned(ctx, mod, sym):
               "after an execution one of the two stacks keeps a frame")
     # ownership of the stacks
     roles_ = stack_roles(ctx, sym, mod)
-    allowed = {roles_['patches']: {'append': {'Sandbox._start_patches'}, 'pop': {'Sandbox._stop_patches'},
+    # (a pop inside the pushing helper is the roll-back of its own failed acquisition; what those two helpers leave
+    # on the stacks is decided by executing them above: one frame on success, none on failure)
+    allowed = {roles_['patches']: {'append': {'Sandbox._start_patches'},
+                                   'pop': {'Sandbox._stop_patches', 'Sandbox._start_patches'},
                                    'assign': {'Sandbox.__init__'}},
-               roles_['stdout']: {'append': {'Sandbox._start_mocking'}, 'pop': {'Sandbox._stop_mocking'},
+               roles_['stdout']: {'append': {'Sandbox._start_mocking'},
+                                  'pop': {'Sandbox._stop_mocking', 'Sandbox._start_mocking'},
                                   'assign': {'Sandbox.__init__'}}}
     for attr, table in allowed.items():
         ws = writers_of(mod, 'Sandbox', attr)
